@@ -494,9 +494,18 @@ class Gen:
                     call(ind + "\t", "funcvalue-map", "%s = g(%s)" % (x, z))
                     em("%s}" % ind)
                 fix(x, ind)
-            elif c == 31 and "A" in have and "F" in have:
+            elif c == 31 and "F" in have:
                 f = self.pick(have["F"])
-                em("%s%s = a0.M" % (ind, f)); self.feat("bound-method")
+                w = rnd(3)
+                if w == 0 and "A" in have:
+                    em("%s%s = a0.M" % (ind, f))
+                elif w == 1 and "IF" in have:
+                    em("%s%s = x0.M" % (ind, f))        # method value of an interface value
+                else:
+                    # receiver reachable only through the bound-method closure
+                    em("%s%s = %s.M" % (ind, f, alloc("A", "&A{t: %s}" % y, ind)))
+                self.feat("bound-method")
+                call(ind, "bound-method", "%s = %s(%s)" % (x, f, z)); fix(x, ind)
             elif c == 32 and "A" in have:
                 clo[0] += 1
                 mx = "mx%d" % clo[0]
@@ -712,7 +721,7 @@ def prepare(work, seed, tier, want_mu=True):
     vlib.build_harness(["c11dump"])
     exe = os.path.join(vlib.BIN, "c11dump")
     stamp = _sha(exe)
-    nprog, nscen = (3, 24) if tier == "quick" else (16, 40)
+    nprog, nscen = (1, 64) if tier == "quick" else (8, 64)   # one load of the std library per program dominates the cost
     os.makedirs(work, exist_ok=True)
     progs = []
     for k in range(nprog):
@@ -727,7 +736,7 @@ def prepare(work, seed, tier, want_mu=True):
         st = os.path.join(d, "stamp")
         if not (os.path.exists(gs) and open(gs).read() == gstamp):
             shutil.rmtree(d, ignore_errors=True)
-            write_program_sized(d, seed * 7919 + k * 104729 + (0 if tier == "quick" else 13), nscen, exotic=(k % 3 != 0))
+            write_program_sized(d, seed * 7919 + k * 104729 + (0 if tier == "quick" else 13), nscen, exotic=True)
             rc, out, err = vlib.sh2(["go", "build", "-o", "prog.exe", "."], cwd=d, timeout=900)
             if rc != 0:
                 raise vlib.BuildError("generated program does not compile: %s" % d, err)
@@ -1238,9 +1247,8 @@ def common(chk, want):
                              "points-to sets by the vendored table): " + ", ".join(sorted(cls["impure"])))
         pr2 = noeffect_run(pr, work)
         st, fails = check_points_to(pr2)
-        st3, fails3 = check_calls(pr2)
         dist["noeffect_option_probe_obs"] = st["probe_obs"]
-        for key, text in fails + fails3:
+        for key, text in fails:
             found_concrete = True
             d = write_replay(chk, "noeffect-" + key, pr2, "with pointer-config.unsafe-no-effect-functions = [pureA pureB pureC] (alias-pure leaf "
                              "functions): " + text)
@@ -1250,6 +1258,16 @@ def common(chk, want):
                                "functions that are alias-pure by construction")
     if want == "calls":
         dist["noeffect_errno_case"] = check_noeffect_errno(chk, work)
+        if progs:
+            pr2 = noeffect_run(progs[0], work)
+            st, fails = check_calls(pr2)
+            dist["noeffect_option_call_events"] = st["call_events"]
+            for key, text in fails:
+                found_concrete = True
+                d = write_replay(chk, "noeffect-" + key, pr2, "with pointer-config.unsafe-no-effect-functions = [pureA pureB pureC] (alias-pure "
+                                 "leaf functions without calls): " + text)
+                chk.violation("noeffect-" + key, text[:400], d)
+                break
     if tie_bad and not found_concrete:
         pr, why, bad = tie_bad[0]
         d = write_replay(chk, "tie", pr, "T-dump tie broken: %s\nfirst disagreements (value / call site, model-only labels, impl labels):\n%s\n"
